@@ -135,18 +135,30 @@ class Emitter:
         self.macros_emitted = []
         self.cur = None
         self.opaque_types = set()
+        self.lambdas_of = {}
+        self.lambda_types = {}
+        self.lambda_ctx = {}
+        self.lambda_ops = {}
 
     # ------------------------------------------------------------------ types
     def resolve_record(self, name):
         name = strip_cv(name)
-        name = name.replace('boost::mqtt5::', 'mqtt5::')
-        if name.startswith('boost::'):
-            name = name[len('boost::'):]
+        name = name.replace('boost::mqtt5::', '')
         cands = []
         if name in self.ast.records:
             return self.ast.records[name]
-        if ('mqtt5::' + name) in self.ast.records:
-            return self.ast.records['mqtt5::' + name]
+        if not hasattr(self, '_recnorm'):
+            self._recnorm = {}
+            for q, d in self.ast.records.items():
+                self._recnorm.setdefault(q.replace(' ', ''), d)
+        key = name.replace(' ', '')
+        if key in self._recnorm:
+            return self._recnorm[key]
+        if '<' in key:
+            # class template specialisations print defaulted arguments (", void") inconsistently
+            for q, d in self._recnorm.items():
+                if q.startswith(key[:-1]) and q[len(key) - 1:] in (',void>',):
+                    return d
         for q, d in self.ast.records.items():
             if q.endswith('::' + name):
                 cands.append(d)
@@ -155,11 +167,9 @@ class Emitter:
         return None
 
     def resolve_enum(self, name):
-        name = strip_cv(name).replace('boost::mqtt5::', 'mqtt5::')
+        name = strip_cv(name).replace('boost::mqtt5::', '')
         if name in self.ast.enums:
             return self.ast.enums[name]
-        if ('mqtt5::' + name) in self.ast.enums:
-            return self.ast.enums['mqtt5::' + name]
         cands = [d for q, d in self.ast.enums.items() if q.endswith('::' + name)]
         if len(cands) == 1:
             return cands[0]
@@ -199,6 +209,8 @@ class Emitter:
             return TI('void', 'void')
         if s in INT_TYPES:
             return TI('int', INT_TYPES[s], name=s)
+        if self.cur is not None and s in getattr(self.cur, 'lambda_types', {}):
+            return self.cur.lambda_types[s]
         if s in ('std::nullopt_t', 'nullopt_t'):
             return TI('nullopt', 'int')
         if s in ('std::nullptr_t', 'nullptr_t'):
@@ -215,7 +227,7 @@ class Emitter:
         rd = self.resolve_record(s)
         if rd is not None and self.translatable_record(rd):
             return TI('rec', 'struct ' + self.record_cname(rd), decl=rd)
-        if '(' in s and ')' in s and rd is None:
+        if '(' in s and ')' in s and rd is None and not s.startswith('(lambda at'):
             # function (pointer/reference) types
             return TI('fn', 'void *', name=s)
         if not self.opaque_ok:
@@ -286,9 +298,13 @@ class Emitter:
             q = re.sub(pat, rep, q)
         base = sanitize(q)
         targs = template_args(fn)
-        targs_n = [a for a in targs if '(' not in a]
+        targs_n = [a for a in targs if '(' not in a and '__normal_iterator<' not in a and not a.startswith('boost::spirit::x3::context<')]
         if targs_n:
-            base += '__' + '_'.join(sanitize(self.short_type(a)) for a in targs_n)
+            suf = '_'.join(sanitize(self.short_type(a)) for a in targs_n)
+            if len(suf) > 70:
+                import hashlib
+                suf = suf[:48] + '_' + hashlib.sha1(suf.encode()).hexdigest()[:6]
+            base += '__' + suf
         kind = fn.get('kind')
         plist = params_of(fn)
         sig = [self.short_type(qt_sugar(p)) for p in plist]
@@ -300,9 +316,13 @@ class Emitter:
                 need_sig = True
         if need_sig:
             if fn.get('name') == 'operator()' and sig:
-                base += '__' + sanitize(sig[0])
+                base += '__' + sanitize(sig[0])[:60]
             else:
-                base += '__' + ('_'.join(sanitize(x) for x in sig) if sig else 'void')
+                sg = ('_'.join(sanitize(x) for x in sig) if sig else 'void')
+                if len(sg) > 70:
+                    import hashlib
+                    sg = sg[:48] + '_' + hashlib.sha1(sg.encode()).hexdigest()[:6]
+                base += '__' + sg
         if spec:
             for p in plist:
                 if p['id'] in spec:
@@ -332,7 +352,12 @@ class Emitter:
             fn, spec, c = self.work.pop(0)
             if c in self.fn_text:
                 continue
-            self.emit_function(fn, spec)
+            try:
+                self.emit_function(fn, spec)
+            except Unsupported:
+                self.fn_text.pop(c, None)
+                self.cur = None
+                raise
 
     def owner_record(self, fn):
         p = self.ast.parent.get(id(fn))
@@ -391,8 +416,15 @@ class Emitter:
         rec = self.owner_record(fn)
         kind = fn.get('kind')
         params = []
-        if rec is not None and kind in ('CXXMethodDecl', 'CXXConstructorDecl', 'CXXConversionDecl', 'CXXDestructorDecl') and not self.is_static_method(fn):
-            rti = self.T(rec['_qname'])
+        if fn['id'] in self.lambda_ctx:
+            t_ti, capmap, outer_this = self.lambda_ctx[fn['id']]
+            params.append('%s *self' % t_ti.c)
+            ctx.this_ti = t_ti
+            ctx.captures = dict(capmap)
+            ctx.lambda_this = capmap.get('this')
+            rec = None
+        elif rec is not None and kind in ('CXXMethodDecl', 'CXXConstructorDecl', 'CXXConversionDecl', 'CXXDestructorDecl') and not self.is_static_method(fn):
+            rti = TI('rec', 'struct ' + self.record_cname(rec), decl=rec)
             params.append('%s *self' % rti.c)
             ctx.this_ti = rti
         for p in params_of(fn):
@@ -837,9 +869,10 @@ class Emitter:
             k = n.get('kind')
             if k in ('ImplicitCastExpr',) and n.get('castKind') in ('NoOp', 'DerivedToBase', 'UncheckedDerivedToBase') and n['inner'][0].get('valueCategory') != 'prvalue':
                 return self.addr(n['inner'][0])
+            x = self.e(n)
             ti = self.T(qt(n))
             t = self.cur.temp(ti)
-            return '(%s = %s, &%s)' % (t, self.e(n), t)
+            return '(%s = %s, &%s)' % (t, x, t)
         x = self.e(n)
         if x.startswith('(*') and x.endswith(')') and balanced(x[2:-1]):
             return x[2:-1]
@@ -862,9 +895,10 @@ class Emitter:
 
     def e_MaterializeTemporaryExpr(self, n):
         inner = n['inner'][0]
+        x = self.e(inner)          # first: a lambda registers its closure type here
         ti = self.T(qt(n))
         t = self.cur.temp(ti)
-        return '(*(%s = %s, &%s))' % (t, self.e(inner), t)
+        return '(*(%s = %s, &%s))' % (t, x, t)
 
     def e_IntegerLiteral(self, n):
         t = strip_cv(qt(n))
@@ -911,6 +945,8 @@ class Emitter:
         if rid in ctx.locals:
             nm, ti = ctx.locals[rid]
             return '(*%s)' % nm if ti.ref else nm
+        if rid in ctx.captures:
+            return ctx.captures[rid]
         if k == 'BindingDecl':
             if rid in ctx.bindings:
                 return ctx.bindings[rid][0]
@@ -938,6 +974,11 @@ class Emitter:
                 x = self.lib.global_ref(self, n)
                 if x is not None:
                     return x
+            if self.opaque_ok and self.T(qt(n)).kind == 'opq':
+                # library object (x3::big_word, asio::error::..., ...): an opaque handle
+                g = 'g_opq__' + sanitize(rd.get('name'))
+                self.globals[g] = 'opq_t %s;' % g
+                return g
             raise Unsupported('reference to non-repository variable %s' % rd.get('name'))
         if k == 'ParmVarDecl':
             # parameter of an enclosing function (lambda captured by ref etc.)
@@ -985,9 +1026,19 @@ class Emitter:
             fti = self.T(qt(fd))
             acc = '%s->%s' % (b, name) if n.get('isArrow') else '%s.%s' % (b, name)
             return '(*%s)' % acc if fti.ref else acc
+        mti = self.T(qt(n))
+        if self.opaque_ok and mti.kind == 'opq':
+            # data member of a library base class: opaque handle
+            return '((opq_t)0 /*.%s*/)' % name
+        if self.opaque_ok and mti.kind == 'rec' and not self.fields_of(mti.decl):
+            # stateless repository object held in a library base class (x3 subject)
+            t = self.cur.temp(mti)
+            return '(*(&%s) /*.%s*/)' % (t, name)
         raise Unsupported('member %s of %s' % (name, qt(base)))
 
     def e_CXXThisExpr(self, n):
+        if getattr(self.cur, 'lambda_this', None):
+            return self.cur.lambda_this
         return 'self'
 
     def e_ImplicitCastExpr(self, n):
@@ -1125,6 +1176,11 @@ class Emitter:
             return '(%s %s)' % (' '.join(x.rstrip(';') + ',' for x in st), t)
         if ti.kind in ('int', 'ptr') and len(n.get('inner', [])) == 1:
             return self.e(n['inner'][0])
+        if ti.kind == 'opq' and self.opaque_ok:
+            args = [a for a in n.get('inner', []) if a.get('kind') != 'CXXDefaultArgExpr']
+            if not args:
+                return '((opq_t)0 /*%s{}*/)' % sanitize(self.short_type(qt(n)))[:40]
+            return self.stub_call(n, {'name': 'ctor'}, args, name='ctor__' + sanitize(self.short_type(qt(n)))[:60])
         raise Unsupported('construction of %s (%s)' % (qt(n), ti.kind))
 
     def e_CXXTemporaryObjectExpr(self, n):
@@ -1183,37 +1239,98 @@ class Emitter:
             x = self.lib.call(self, n, rd, full, cnode, args)
             if x is not None:
                 return x
-        return self.stub_call(n, rd, args)
+        return self.stub_call(n, rd, args, cnode=cnode)
 
     def force_stub(self, fn):
         return False
 
-    def stub_call(self, n, rd, args, name=None, objs=()):
-        """class 3: opaque callee -> body-less stub named after the callee"""
+    def callee_param_types(self, cnode):
+        """parameter type spellings of a library callee, from the callee expression's function type"""
+        t = (cnode.get('type') or {}).get('qualType', '') if cnode else ''
+        if cnode is not None and cnode.get('kind') == 'MemberExpr':
+            return None
+        depth = 0
+        start = None
+        for i, ch in enumerate(t):
+            if ch in '<[':
+                depth += 1
+            elif ch in '>]':
+                depth -= 1
+            elif ch == '(' and depth == 0 and start is None:
+                start = i
+                break
+        if start is None:
+            return None
+        # matching close
+        d = 0
+        end = None
+        for i in range(start, len(t)):
+            if t[i] == '(':
+                d += 1
+            elif t[i] == ')':
+                d -= 1
+                if d == 0:
+                    end = i
+                    break
+        if end is None:
+            return None
+        return split_top(t[start + 1:end])
+
+    def stub_call(self, n, rd, args, name=None, objs=(), cnode=None):
+        """class 3: opaque callee -> stub named after the callee.  Arguments bound
+        to non-const lvalue reference parameters are passed by address (the stub
+        may change them, subject to its assumed contract)."""
         if not self.opaque_ok:
             raise Unsupported('call to %s outside the tables' % (rd or {}).get('name'))
         name = name or sanitize((rd or {}).get('name') or 'indirect')
         rti = self.T(qt(n))
         a = list(objs)
-        atys = []
-        for x in args:
+        atys = ['opq_t'] * len(a)
+        ptys = self.callee_param_types(cnode)
+        for i, x in enumerate(args):
             if x.get('kind') == 'CXXDefaultArgExpr':
                 continue
+            if qt(x).startswith('(lambda at') or strip_cv(qt(x)).startswith('(lambda at'):
+                ax = self.addr(x)      # emits the closure and registers its type
+                a.append(ax)
+                atys.append(self.T(qt(x)).c + ' *')
+                continue
             ti = self.T(qt(x))
-            if ti.kind in ('rec',) or x.get('valueCategory') != 'prvalue' and ti.kind not in ('int', 'ptr', 'opq', 'ec', 'it', 'dur'):
+            byref_out = False
+            if ptys is not None and i < len(ptys):
+                p = ptys[i].strip()
+                base = p[:-1].strip()
+                if p.endswith('&') and not p.endswith('&&') and not (base.startswith('const ') or base.endswith(' const')):
+                    byref_out = x.get('valueCategory') == 'lvalue'
+            if ptys is None and x.get('valueCategory') == 'lvalue' and x.get('kind') in ('DeclRefExpr', 'MemberExpr') \
+                    and not qt_sugar(x).strip().startswith('const ') and ti.kind in ('int', 'it', 'vit', 'ptr', 'ec', 'dur'):
+                # no parameter types known (member of a library class): a non-const
+                # lvalue argument may be bound to a non-const reference
+                byref_out = True
+            if x.get('kind') == 'LambdaExpr' or (ti.kind == 'rec' and ti.c.startswith('struct lam__')):
+                a.append(self.addr(x))
+                atys.append(ti.c + ' *')
+            elif ti.kind == 'fn':
+                a.append('0 /*callable*/')
+                atys.append('opq_t')
+            elif byref_out or ti.kind in ('rec',) or (x.get('valueCategory') != 'prvalue' and ti.kind not in ('int', 'ptr', 'opq', 'ec', 'it', 'dur', 'vit', 'nullopt')):
                 a.append(self.addr(x))
                 atys.append(ti.c + ' *')
             else:
                 a.append(self.e(x))
                 atys.append(ti.c)
         sname = 'stub__' + name
+        for pat, rep in getattr(self, 'stub_aliases', []):
+            if re.search(pat, sname):
+                sname = rep
+                break
         retc = rti.c + (' *' if rti.ref else '')
         key = sname
         k = 2
-        while key in self.stubs and self.stubs[key] != (retc, len(a)):
+        while key in self.stubs and self.stubs[key] != (retc, atys):
             key = '%s_%d' % (sname, k)
             k += 1
-        self.stubs[key] = (retc, len(a))
+        self.stubs[key] = (retc, atys)
         call = '(%s%s(%s))' % (self.note_call(key), key, ', '.join(a))
         return '(*%s)' % call if rti.ref else call
 
@@ -1262,11 +1379,75 @@ class Emitter:
         return self.stub_call(n, rd, args, name=sanitize(self.short_type(qt(args[0])) + '__' + (rd or {}).get('name', 'op')))
 
     def e_LambdaExpr(self, n):
-        if self.lib:
-            x = self.lib.lambda_expr(self, n)
-            if x is not None:
-                return x
-        raise Unsupported('lambda expression in %s' % self.cur.cname)
+        """closure object: struct of captures (by reference -> pointer field) plus
+        one C function per operator() (for a generic lambda: per instantiated
+        specialisation).  The value of the expression is the closure struct."""
+        ctx = self.cur
+        rec = n['inner'][0]
+        fields = [c for c in rec.get('inner', []) if c.get('kind') == 'FieldDecl']
+        rest = [c for c in n['inner'][1:]]
+        body = rest[-1] if rest and rest[-1].get('kind') == 'CompoundStmt' else None
+        inits = rest[:-1] if body is not None else rest
+        k = self.lambda_count = getattr(self, 'lambda_count', 0) + 1
+        sname = 'lam__%s__%d' % (ctx.cname, len([x for x in self.lambdas_of.get(ctx.cname, [])]))
+        self.lambdas_of.setdefault(ctx.cname, []).append(sname)
+        lines = ['struct %s {' % sname]
+        capmap = {}
+        setup = []
+        t_ti = TI('rec', 'struct ' + sname, decl=rec)
+        tmp = ctx.temp(t_ti)
+        for i, (f, ini) in enumerate(zip(fields, inits)):
+            fti = self.T(qt(f))
+            lines.append('  %s;' % self.decl(fti, 'cap%d' % i, byref=fti.ref))
+            x = ini
+            while x.get('kind') in ('CXXConstructExpr', 'ImplicitCastExpr', 'MaterializeTemporaryExpr') and x.get('inner'):
+                if x.get('kind') == 'CXXConstructExpr' and len(x['inner']) != 1:
+                    break
+                x = x['inner'][0]
+            if x.get('kind') == 'DeclRefExpr':
+                capmap[x['referencedDecl']['id']] = ('(*self->cap%d)' if fti.ref else 'self->cap%d') % i
+            elif x.get('kind') == 'CXXThisExpr':
+                capmap['this'] = 'self->cap%d' % i
+            else:
+                raise Unsupported('lambda capture with initialiser')
+            if fti.ref:
+                setup.append('%s.cap%d = %s' % (tmp, i, self.addr(ini)))
+            elif ini.get('kind') == 'CXXThisExpr':
+                setup.append('%s.cap%d = self' % (tmp, i))
+            else:
+                setup.append('%s.cap%d = %s' % (tmp, i, self.e(ini)))
+        if not fields:
+            lines.append('  char _empty;')
+        lines.append('};')
+        self.struct_defs[sname] = '\n'.join(lines)
+        self.struct_order.append(sname)
+        ctx.lambda_types[qt(n)] = t_ti
+        # operator() definitions
+        ops = []
+        for c in rec.get('inner', []):
+            if c.get('kind') == 'CXXMethodDecl' and c.get('name') == 'operator()' and has_body(c):
+                ops.append(c)
+            if c.get('kind') == 'FunctionTemplateDecl' and c.get('name') == 'operator()':
+                first = True
+                for cc in c.get('inner', []):
+                    if cc.get('kind') == 'CXXMethodDecl':
+                        if first:
+                            first = False
+                            continue
+                        if has_body(cc):
+                            ops.append(cc)
+        names = []
+        for j, op in enumerate(ops):
+            op['_qname'] = '%s::lambda%d::operator()' % (ctx.fn.get('_qname', ctx.cname), len(self.lambdas_of[ctx.cname]) - 1)
+            cn = '%s__op%d' % (sname, j)
+            key = (op['id'], ())
+            self.cnames[key] = cn
+            self.used_cnames[cn] = key
+            self.lambda_ctx[op['id']] = (t_ti, capmap, ctx.this_ti)
+            self.work.append((op, None, cn))
+            names.append(cn)
+        self.lambda_ops[sname] = names
+        return '(%s, %s)' % (', '.join(setup), tmp) if setup else tmp
 
     def e_CXXNewExpr(self, n):
         raise Unsupported('new-expression')
@@ -1304,6 +1485,7 @@ class FnCtx:
         self.locals = {}
         self.bindings = {}
         self.captures = {}
+        self.lambda_types = {}
         self.fnparams = {}
         self.temps = []
         self.loops = []
